@@ -472,7 +472,7 @@ func propC08(r *kernel.Run) {
 			}
 		}
 		reinit := tp.Draw(6) == 0
-		skip := !reinit && tp.Draw(12) == 0
+		skip := tp.Draw(12) == 0 // also together with reinitialize: the caller persists the result itself
 		order := fmt.Sprint(ranks, kind <= 2, reinit)
 		if kind > 2 {
 			r.Count("probe.weak_order_injected", 1)
